@@ -45,6 +45,22 @@ pub fn generate(g: &mut Gen, thorough: bool) {
             }
         }
     }
+    // angular parameters written with minutes and seconds, between -1 and 0 degrees (the sign sits on a zero)
+    for name in proj::PROJECTIONS {
+        let d: ProjDef = proj::random(&mut g.rng, name);
+        if !d.has_lon0 {
+            continue;
+        }
+        let centred = ProjDef { centre: (0.0, d.centre.1), ..d.clone() };
+        let pts = proj::points(&mut g.rng, &centred, 6);
+        let zero = d.def_with(&d.ellps, 0.0, d.k_0, d.x_0, d.y_0);
+        let key = if name == "omerc" { "lonc" } else { "lon_0" };
+        for (spelling, degrees) in [("-0:30", -0.5), ("-0:00:36", -0.01), ("0:30W", -0.5), ("-0.5", -0.5), ("0:30", 0.5), ("-0:30E", -0.5)] {
+            let a = zero.replacen(&format!("{key}=0"), &format!("{key}={spelling}"), 1);
+            pair(g, "lon0", &a, &zero, &[degrees], &pts, &format!("oracle-lon0-sexagesimal-{name}"));
+            g.push(op_line("default", &[], &[], &a, "apply", "F", &data_of(&pts)), "model-lon0-sexagesimal", true);
+        }
+    }
     // laea in its polar and equatorial aspects, the projection centre among the points
     for lat_0 in [90.0, -90.0, 0.0] {
         for _ in 0..(rounds / 4).max(1) {
